@@ -372,7 +372,7 @@ def get_odesys(
             for rxn, ratex in zip(rsys.rxns, r_exprs)
         ]
 
-    names = [s.name for s in rsys.substances.values()]
+    names = list(rsys.substances.keys())
     latex_names = [
         None if s.latex_name is None else ("\\mathrm{" + s.latex_name + "}")
         for s in rsys.substances.values()
